@@ -566,6 +566,12 @@ def call_method(ex, base, attr, args, kwargs, st, n):
             return SV(PT('pylist'), py=tuple(SV(PT('pytuple'), py=(ex.program.const_sv(kk), vv)) for kk, vv in base.py.items()))
     if k == 'emptydict' and attr == 'get':
         return args[1] if len(args) > 1 else NONE
+    if k in ('pytuple', 'pylist') and attr == 'find' and len(args) == 1 and all(e.pt.kind == 'str' for e in base.py) and args[0].pt.kind == 'str':
+        # ['x', 'y'].indexOf(v) of the JavaScript front end on an array literal of strings: index of the first equal element, -1 when none is
+        t = IntC(-1)
+        for i in reversed(range(len(base.py))):
+            t = Ite(Eq(base.py[i].t, args[0].t), IntC(i), t)
+        return SV(ptypes.TInt, t)
     raise OutOfSubset('method %s on %r at line %d' % (attr, base.pt, n.lineno))
 
 
@@ -868,6 +874,12 @@ def list_comp(ex, n, st):
             return SV(PT('emptylist'))
         return ex.new_list(st, ept, ex.as_seq(st, SV(PT('pytuple'), py=tuple(out)), ept))
     if g.ifs:
+        # the one filtered comprehension of the subset: [x for x in xs if len(x)] over strings is the spec function nonempty_strs(xs)
+        if (len(g.ifs) == 1 and isinstance(g.target, ast.Name) and isinstance(n.elt, ast.Name) and n.elt.id == g.target.id
+                and ast.unparse(g.ifs[0]) == 'len(%s)' % g.target.id and it.pt.kind == 'list' and it.pt.args[0].kind == 'str'):
+            from . import speclib
+            parts = speclib.spec_app(ex, 'nonempty_strs', [SV(ptypes.TSeq(ptypes.TStr), ex.list_content(st, it))], None)
+            return ex.new_list(st, ptypes.TStr, parts.t)
         raise OutOfSubset('filtered comprehension over symbolic sequence at line %d' % n.lineno)
     seq_of = ex._iter_seq(st, it, n)
     seq = seq_of(st)
